@@ -741,6 +741,16 @@ def main():
         model_vals = [int(v) for v in mout.split()[1:]] if model_ok else None
         chk = touts[c["ci"]] if c["ci"] is not None else None
         chk_key = None
+        if kind == "rsqrt" and chk is not None and cfg.get("captured"):
+            # the multiplier the code derived from the two scales against the reference's derivation (float32 sqrt and product,
+            # double reciprocal, QuantizeMultiplier): equal tables can hide a multiplier that is wrong in its low bits
+            mm = re.search(r"mult (-?\d+) shift (-?\d+)", chk)
+            if mm and [int(mm.group(1)), int(mm.group(2))] != list(cfg["captured"][0]) and (kind, "mult") not in tab_reported:
+                tab_reported.add((kind, "mult"))
+                ck.violation(f"create_lut_rsqrt_int8_op: output multiplier {cfg['captured'][0]} differs from the TFLite reference derivation "
+                             f"1. / (sqrtf(input_scale) * output_scale) -> QuantizeMultiplier = ({mm.group(1)}, {mm.group(2)}); scales {cfg['ifm_scale']!r}, {cfg['ofm_scale']!r}"
+                             f"{'' if chk.startswith('1 ') else '; table verdict ' + chk[:80]}",
+                             {"kind": "table", **cfg, "reference_verdict": chk[:200]}, found_input=chk.startswith("0 index"))
         if kind == "rsqrt" and chk is not None:
             if chk.startswith("1 "):
                 chk = "1"
@@ -799,6 +809,12 @@ def main():
                                  {"kind": "table", **cfg, "reference_verdict": chk, "table": c["real"][:512]}, key=chk_key)
             if chk is not None:
                 ck.count(f"table_{kind}_reference_{'ok' if chk == '1' else ('na' if chk == 'na' else 'reject')}")
+            continue
+        if (kind == "rsqrt" and chk == "1" and c["status"] == "ok" and model_ok and
+                all(a == b or j - 128 <= cfg["zp_in"] for j, (a, b) in enumerate(zip(c["real"], model_vals)))):
+            # the TFLite reference accepts the whole table and it differs from Model/Lut.lean (transcription of the unrepaired code) only at
+            # entries for real input <= 0: finding rsqrt-lut-zero-input-entry-not-max-... is repaired in this tree (verif_patches/C19-11)
+            ck.count("table_rsqrt_zero_input_code_follows_reference")
             continue
         # disagreement: classify
         key = None
